@@ -112,3 +112,91 @@ def run_chain(start, hops, max_rounds=80, redirectable=True):
     except Exception:
         pass
     return out
+
+
+def run_requests(start, plans, max_rounds=80):
+    """SEVERAL requests, one after the other, on ONE Patron.  plans = [(path, query, hops), ...]:
+    request i asks for path?query (on whatever connection the Patron is on after request i-1) and is
+    answered with the 3xx responses of hops_i, then with 200.  Returns per request: the final
+    response the Patron delivered (status, body, [(status, location) of its .redirects]) or None,
+    the requests the servers saw for it, and the overall error if an exception escaped."""
+    from ioflo.aid.odicting import odict
+    from ioflo.base import storing
+    from ioflo.aio.http import clienting, serving
+    net = fakenet.install(tls=True)
+    store = storing.Store(stamp=0.0)
+    script = []                      # (request index, hop or None) in the order the servers answer
+    for i, (path, query, hops) in enumerate(plans):
+        script += [(i, h) for h in hops] + [(i, None)]
+    seen = []
+
+    def make_app(port):
+        def app(environ, start_response):
+            k = len(seen)
+            target = environ['PATH_INFO']
+            if environ.get('QUERY_STRING'):
+                target += '?' + environ['QUERY_STRING']
+            i, hop = script[k] if k < len(script) else (len(plans), None)
+            seen.append({"port": port, "target": target, "host_header": environ.get('HTTP_HOST'), "req": i})
+            if hop is not None:
+                status, loc = hop
+                start_response('%d Redirect' % status, [('Location', loc), ('Content-Length', '0'), ('X-Req', str(i))])
+                return [b'']
+            body = FINAL_BODY + b" %d" % i
+            start_response('200 OK', [('Content-Length', str(len(body))), ('X-Req', str(i))])
+            return [body]
+        return app
+
+    valets = []
+    for port in PORTS:
+        v = serving.Valet(port=port, bufsize=131072, store=store, app=make_app(port))
+        assert v.servant.reopen()
+        valets.append(v)
+    scheme, host, port, path0, q0 = start
+    error = None
+    delivered = []
+    beta = None
+    try:
+        beta = clienting.Patron(bufsize=131072, store=store, path="%s://%s:%d/" % (scheme, host, port),
+                                reconnectable=True, redirectable=True)
+        beta.connector.reopen()
+        for i, (path, query, hops) in enumerate(plans):
+            beta.requests.append(odict([('method', u'GET'), ('path', path + (("?" + query) if query else "")),
+                                        ('qargs', odict()), ('fragment', u''),
+                                        ('headers', odict([('Accept', '*/*')]))]))
+            idle = 0
+            for _ in range(max_rounds):
+                before = (len(beta.responses), sum(len(s.sent) for s in net.socks), len(net.connections))
+                for v in valets:
+                    v.serviceAll()
+                beta.serviceAll()
+                after = (len(beta.responses), sum(len(s.sent) for s in net.socks), len(net.connections))
+                if beta.responses:
+                    break
+                idle = idle + 1 if before == after else 0
+                if idle >= 12:
+                    break
+            if not beta.responses:
+                delivered.append(None)
+                break
+            r = beta.responses.popleft()
+            delivered.append((r["status"], bytes(r["body"]),
+                              [(x["status"], x["headers"].get("location")) for x in r.get("redirects", [])],
+                              r["headers"].get("x-req")))
+    except Exception as ex:
+        error = "%s: %s" % (type(ex).__name__, ex)
+    out = {"delivered": delivered, "error": error,
+           "seen": [(s["req"], s["port"], s["target"], s["host_header"]) for s in seen],
+           "redirects_left": len(beta.redirects) if beta is not None else None,
+           "waited": beta.waited if beta is not None else None}
+    for v in valets:
+        try:
+            v.servant.closeAll()
+        except Exception:
+            pass
+    try:
+        if beta is not None:
+            beta.connector.close()
+    except Exception:
+        pass
+    return out
